@@ -59,6 +59,41 @@ class _Continue(Exception):
     pass
 
 
+_NT_CACHE: Dict[int, Any] = {}
+
+
+def namedtuple_of(cnode: ast.ClassDef, eval_default=None):
+    """A repository class `class P(NamedTuple): a: int; b: str = ''` as a Python namedtuple type (None if it is not one).
+    Methods defined on it are not carried over (Unsupported when they are looked up)."""
+    if id(cnode) in _NT_CACHE:
+        return _NT_CACHE[id(cnode)]
+    import collections
+    res = None
+    if any(ast.unparse(b).split(".")[-1] == "NamedTuple" for b in cnode.bases):
+        fields, defaults = [], []
+        ok = True
+        for st in cnode.body:
+            if isinstance(st, ast.AnnAssign) and isinstance(st.target, ast.Name):
+                fields.append(st.target.id)
+                if st.value is not None:
+                    try:
+                        defaults.append(eval_default(st.value) if eval_default else ast.literal_eval(st.value))
+                    except Exception:
+                        ok = False
+                elif defaults:
+                    ok = False
+            elif isinstance(st, ast.Expr) and isinstance(st.value, ast.Constant):
+                continue
+            elif isinstance(st, ast.Pass):
+                continue
+            else:
+                ok = False
+        if ok and fields:
+            res = collections.namedtuple(cnode.name, fields, defaults=defaults or None)
+    _NT_CACHE[id(cnode)] = res
+    return res
+
+
 class Evaluator:
     def __init__(self, methods: Optional[Dict[str, Any]] = None, max_steps=20000, functions=None, lookup=None,
                  natives=None, modules=None):
@@ -327,6 +362,8 @@ class Evaluator:
                 m = self.methods.get((base._cls, e.attr))
                 if m is not None and any(ast.unparse(d) == "property" for d in m.decorator_list):
                     return self.call_function(m, {"self": base})
+            if isinstance(base, tuple) and e.attr in getattr(base, "_fields", ()):
+                return getattr(base, e.attr)          # NamedTuple built by namedtuple_of()
             raise Unsupported(f"attribute {e.attr} on {base!r}")
         if isinstance(e, (ast.Tuple, ast.List)) and any(isinstance(x, ast.Starred) for x in e.elts):
             out = []
@@ -517,6 +554,9 @@ class Evaluator:
 
     def instantiate(self, cname: str, args, kwargs):
         cnode = self.classes[cname]
+        nt = namedtuple_of(cnode, lambda d: self.expr(d, {}))
+        if nt is not None:
+            return nt(*args, **kwargs)
         init = self.methods.get((cname, "__init__"))
         if init is not None:
             me = Obj(cname)
